@@ -11,7 +11,7 @@ from pv import judges, plans
 
 ID = 'C20'
 TITLE = 'future adapters / cancellable action'
-ANCHORS = ['plumpy.futures:create_task', 'plumpy.futures:unwrap_kiwi_future', 'plumpy.communications:plum_to_kiwi_future', 'plumpy.futures:CancellableAction.run', 'plumpy.processes:Process._schedule_rpc']
+ANCHORS = ['plumpy.communications:convert_to_comm', 'plumpy.futures:create_task', 'plumpy.futures:unwrap_kiwi_future', 'plumpy.communications:plum_to_kiwi_future', 'plumpy.futures:CancellableAction.run', 'plumpy.processes:Process._schedule_rpc']
 LEVEL = 'exploration'
 TECHNIQUE = ('runtime monitoring: outcome-propagation monitor on the adapter futures (state, result, exception, done-callback count) for generated '
              'nests of futures resolving to futures, all completion orders, completion from the loop thread or another thread; call-count monitor '
@@ -23,7 +23,7 @@ RULE = ('adapters {unwrap_kiwi_future, plum_to_kiwi_future (+unwrap), create_tas
 ASSUMPTIONS = ['a cancelled coroutine given to create_task / an awaited future cancelled inside _schedule_rpc is outside the statement ("result or exception")',
                'an exception raised by a _schedule_rpc callback may arrive wrapped, as long as it chains to the original',
                'thread-mode cases that hit their watchdog are inconclusive, never violations']
-REQUIRED = ['adapter/unwrap', 'adapter/plum2kiwi', 'adapter/create_task', 'adapter/schedule_rpc', 'outcome/value', 'outcome/exception', 'outcome/cancel',
+REQUIRED = ['adapter/comm_thread', 'injected_delays', 'adapter/unwrap', 'adapter/plum2kiwi', 'adapter/create_task', 'adapter/schedule_rpc', 'outcome/value', 'outcome/exception', 'outcome/cancel',
             'depth/2', 'depth/3', 'inner_first', 'outer_first', 'thread_mode', 'action_cases', 'callbacks_counted']
 EXHAUSTIVE = {'quick': False, 'thorough': False}
 BOUNDS = {'quick': 'depth<=3 exhaustive orders, depth 4 sampled (200), thread mode 120 cases', 'thorough': 'depth 4 all orders, thread mode 2000 cases'}
@@ -65,6 +65,11 @@ def gen_cases(tier, seed):
             for order in orders:
                 cases.append({'adapter': 'schedule_rpc', 'depth': depth, 'order': list(order), 'outcome': oc, 'thread': False})
                 cases.append({'adapter': 'schedule_rpc', 'depth': depth, 'order': list(order), 'outcome': oc, 'thread': True})
+    # a subscriber converted by convert_to_comm() is called from a communicator thread while the loop is idle; an injected
+    # delay (trace hook in the calling thread) lets the loop finish the scheduled coroutine before the mirror is set up
+    for oc in OUTCOMES[:4]:
+        for delay_at in ('plum_to_kiwi_future', 'on_done', None):
+            cases.append({'adapter': 'comm_thread', 'depth': 1, 'order': [0], 'outcome': oc, 'thread': True, 'delay_at': delay_at})
     for scen in ('run', 'run-twice', 'cancel-run', 'raise', 'raise-run', 'args', 'cancel-twice-run', 'cancel-inside-run', 'cancel-inside-raise'):
         cases.append({'adapter': 'action', 'scenario': scen, 'depth': 1, 'order': [], 'outcome': ['value', 1], 'thread': False})
     return cases
@@ -102,9 +107,70 @@ def _complete(fut, what, nxt):
         fut.cancel()
 
 
+def run_comm_thread(case):
+    import sys
+    import time
+    V = judges.V
+    oc = case['outcome']
+    obs = {'adapter': {'comm_thread': 1}, 'outcome': {('exception' if oc[0] == 'exc' else 'value'): 1}, 'depth': {'1': 1}, 'inner_first': 0,
+           'outer_first': 0, 'thread_mode': 1, 'action_cases': 0, 'callbacks_counted': 0, 'injected_delays': 0}
+    loop = asyncio.new_event_loop()
+    asyncio.set_event_loop(loop)
+    out = {}
+
+    async def handler(_comm, msg):
+        if oc[0] == 'exc':
+            raise AdapterError(oc[1])
+        return oc[1]
+
+    conv = communications.convert_to_comm(handler, loop)
+    delay_at = case.get('delay_at')
+
+    def tracer(frame, event, arg):
+        if event == 'call' and frame.f_code.co_name == delay_at:
+            obs['injected_delays'] += 1
+            time.sleep(0.05)  # the loop thread gets ahead of this (communicator) thread here
+        return None
+
+    def sender():
+        time.sleep(0.03)  # the loop is idle by now
+        if delay_at:
+            sys.settrace(tracer)
+        try:
+            fut = conv(None, 'msg')
+        finally:
+            sys.settrace(None)
+        ev = threading.Event()
+        fut.add_done_callback(lambda f: ev.set())
+        out['in_time'] = ev.wait(8)  # generous watchdog: the operation itself takes about a millisecond
+        out['desc'] = _describe(fut)
+        loop.call_soon_threadsafe(loop.stop)
+
+    th = threading.Thread(target=sender)
+    th.start()
+    try:
+        loop.run_forever()
+        th.join(10)
+    finally:
+        loop.close()
+        asyncio.set_event_loop(None)
+    viol = []
+    exp = _expected(oc)
+    if not out.get('in_time'):
+        viol.append(V('adapter-pending', 'adapter-pending:comm_thread:%s' % (delay_at or 'nodelay'),
+                      'a subscriber converted by convert_to_comm was called from another thread while the loop was idle: its reply future was still pending '
+                      'after 8 s (delay injected at %s)' % delay_at))
+    elif not _same(out['desc'], exp, 'schedule_rpc'):
+        viol.append(V('adapter-outcome', 'adapter-outcome:comm_thread:%s' % oc[0], 'reply future ended %r, the handler produced %r' % (out['desc'], exp)))
+    return {'viol': viol, 'obs': obs, 'key': case, 'nontrivial': True,
+            'sample': {'adapter': 'convert_to_comm from a communicator thread', 'delay_at': delay_at, 'outcome': oc, 'reply': [out.get('desc', ['?'])[0]]}}
+
+
 def run_case(case):
     if case['adapter'] == 'action':
         return run_action(case)
+    if case['adapter'] == 'comm_thread':
+        return run_comm_thread(case)
     V = judges.V
     adapter, depth, order, oc, thread = case['adapter'], case['depth'], case['order'], case['outcome'], case['thread']
     obs = {'adapter': {adapter: 1}, 'outcome': {('cancel' if oc[0] == 'cancel' else ('exception' if oc[0] == 'exc' else 'value')): 1},
